@@ -48,6 +48,7 @@ def check(ctx):
     thr = ctx.fold.get('rgxlib.misc', 'through_regex')
     ctx.attempt(_inc, 'RX-LANG', 'through_regex', F.THROUGH, thr, 'through words (any case)')
     ctx.attempt(emitted_trs_accepted)
+    ctx.attempt(deduce_sees_every_section_word)
     ctx.attempt(_deduce_on_preprocessed)
     ctx.attempt(_in_between)
     from .c05 import _range_algebra           # 'Sections 9 - 12' must expand for the round trip to hold
@@ -266,6 +267,47 @@ def word_tables(ctx):
                   detail_bad=f"{eaten} culls a description that consists of that word alone (e.g. 'Sec 36: ALL' ends up empty)",
                   key=f"TBL|{label}|vocabulary", where=common.loc(fi, node))
     return len(sites)
+
+
+def deduce_sees_every_section_word(ctx):
+    """deduce_layout decides the layout from where the first section word
+    stands.  Whatever it searches with must find every spelling that
+    no_num_sec_regex (the word the section patterns are built on) accepts -
+    including the symbol '§', in front of which there is no word boundary -
+    otherwise a description written with that spelling is deduced as copy_all
+    and comes back as one tract."""
+    from .. import rx as _rx
+    fi = ctx.repo.func('plss_parse:deduce_layout')
+    construct = 'deduce_layout finds every spelling of the section word'
+    base = ctx.fold.get('rgxlib.sec', 'no_num_sec_regex')
+    searches = []
+    for a in walk_local(fi.node):
+        if isinstance(a, ast.Assign) and isinstance(a.targets[0], ast.Name) and 'sec' in a.targets[0].id \
+                and isinstance(a.value, ast.Call) and isinstance(a.value.func, ast.Attribute) and a.value.func.attr == 'search':
+            c = a.value
+            if dotted(c.func) == 're.search' and c.args:
+                pat = common.fold_in_func(ctx, fi, c.args[0])
+                fl = common.fold_in_func(ctx, fi, c.args[2]) if len(c.args) > 2 else 0
+                for k in c.keywords:
+                    if k.arg == 'flags':
+                        fl = common.fold_in_func(ctx, fi, k.value)
+                if isinstance(pat, str) and isinstance(fl, int):
+                    searches.append((a, pat, fl))
+            else:
+                v = common.fold_in_func(ctx, fi, c.func.value)
+                if hasattr(v, 'pattern'):
+                    searches.append((a, v.pattern, v.flags))
+    if not searches:
+        ctx.undecided('RX-LANG', construct, 'the section search of deduce_layout does not fold')
+        return
+    words = _rx.enumerate_words(_rx.parse(base.pattern, base.flags), base.flags)
+    for a, pat, fl in searches:
+        L = _rx.Lang(pat, fl)
+        miss = [w for w in words if w and not (L.search(f"T154N-R97W {w} 14: NE/4") and L.search(f"T154N-R97W\n{w}14: NE/4"))]
+        ctx.check(not miss, 'RX-LANG', construct, f"{len(words)} spellings",
+                  f"`{norm(a)[:70]}` does not find {miss[0]!r} (which no_num_sec_regex, and with it every section pattern, accepts): "
+                  f"a description that writes its sections that way is deduced as copy_all - one tract with the whole text, "
+                  f"no error flag" if miss else '', key="RX-LANG|deduce_layout|section-word", where=common.loc(fi, a))
 
 
 def _word_tables(ctx):
